@@ -17,10 +17,9 @@ def judgeDeadline (entry shape : String) (toMs : Nat) (elapsed tdl closed : Int)
   if outcome ≠ "deadline" then s!"VIOL deadline-outcome entry={entry} shape={shape} outcome={outcome}"
   else if elapsed < to - earlyMargin then s!"VIOL deadline-early entry={entry} shape={shape} elapsed={elapsed} timeout={to}"
   else if elapsed > to + lateMargin then s!"VIOL deadline-late entry={entry} shape={shape} elapsed={elapsed} timeout={to}"
-  else if tdl == -2 then s!"VIOL target-never-called entry={entry} shape={shape}"
   else if tdl == -1 then s!"VIOL target-no-deadline entry={entry} shape={shape}"
-  else if tdl > to + skew then s!"VIOL target-later-deadline entry={entry} shape={shape} tdl={tdl} timeout={to}"
-  else if shape ≠ "unreachable" && (closed < 0 || closed > to + lateMargin) then
+  else if tdl ≠ -2 && tdl > to + skew then s!"VIOL target-later-deadline entry={entry} shape={shape} tdl={tdl} timeout={to}"
+  else if shape ≠ "unreachable" && tdl ≠ -2 && (closed < 0 || closed > to + lateMargin) then
     s!"VIOL outgoing-not-closed-in-time entry={entry} shape={shape} closed={closed} timeout={to}"
   else s!"OK nt b={entry}-{shape}"
 
@@ -39,6 +38,26 @@ def handle : Handler
       if out ≠ sp then s!"VIOL decode impl={out} spec={sp} model={m}"
       else if out ≠ m then s!"DIFF model={m}"
       else s!"OK{nt} {br}"
+  | "ctx" :: vals, [out] =>
+    -- `ctx <hex value>… => nodl | dl:<ns> | notcalled`: the deadline Forward gives the outgoing stream.
+    -- Spec: the FIRST grpc-timeout value decides; well-formed ⇒ deadline = call start + exactly that duration
+    -- (observed within [−5 ms, +250 ms] of it: the start is measured just before the call); malformed or absent ⇒ none.
+    match vals.mapM parseHex with
+    | none => "BAD hex"
+    | some [] => "BAD ctx without values"
+    | some (v :: _) =>
+      match callDeadline (v :: []), out.splitOn ":" with
+      | none, ["nodl"] => "OK nt b=ctx-ignored"
+      | none, _ => s!"VIOL malformed-timeout-enforced out={out}"
+      | some _, ["nodl"] => s!"VIOL well-formed-timeout-not-enforced spec={showOptInt (specTimeout v)}"
+      | some d, ["dl", ns] =>
+        match ns.toInt? with
+        | none => "BAD ctx ns"
+        | some n =>
+          if n < d - 5000000 then s!"VIOL deadline-earlier-than-asked got={n} want={d}"
+          else if n > d + 250000000 then s!"VIOL deadline-later-than-asked got={n} want={d}"
+          else if d = 0 then "OK nt b=ctx-zero" else "OK nt b=ctx-deadline"
+      | some _, _ => s!"VIOL target-not-reached-or-bad out={out}"
   | ["dl", entry, shape, toS], [el, oc, tdl, cl] =>
     -- timed end-to-end observation (area c12e2e): `dl <entry> <shape> <timeout ms> => elapsed=<ms> outcome=<..> tdl=<ms> closed=<ms>`
     let num (s : String) : Option Int := match s.splitOn "=" with | [_, v] => v.toInt? | _ => none
